@@ -59,7 +59,7 @@ def chunks_roundtrip(body: bytes, n: int, cs: int, lo: int) -> str:
     return orc.result()
 
 
-def dechunk_agrees(shape: int, kind: int, j: int, v: int, cut: int, nshape: int) -> str:
+def dechunk_agrees(shape: int, kind: int, j: int, v: int, cut: int, nshape: int, combo: bool) -> str:
     """
     On structure-aware mutations of valid chunked messages _read_dechunk returns a body iff the tolerant reference parser does
     (same payload, same number of bytes consumed); every message the strict HTTP/1.1 recogniser accepts is accepted. A corrupt
@@ -69,10 +69,10 @@ def dechunk_agrees(shape: int, kind: int, j: int, v: int, cut: int, nshape: int)
     pre: 0 <= kind < 9
     pre: 0 <= j < 4
     pre: 0 <= v < 17
-    pre: -1 <= cut < 60
+    pre: 0 <= cut < 60
     post: __return__ == 'ok'
     """
-    wire, _ = mut_case(shape, kind, j, v, 2, cut)
+    wire, _ = mut_case(shape, kind, j, v, 2, cut, combo)
     with untraced():
         orc = Oracle()
         try:
@@ -118,11 +118,6 @@ def ref_accept_encoding(header):
     return out
 
 
-def acceptable(ref, name):
-    """the peer declared `name` with non-zero quality (explicitly; a header listing it several times: any non-zero entry)."""
-    return any(n == name and q > 0 for n, q in ref)
-
-
 def refused(ref, name):
     return any(n == name for n, q in ref) and all(q == 0 for n, q in ref if n == name)
 
@@ -136,7 +131,7 @@ def check_parsed(orc, header, parsed):
             return
         orc.check(not refused(ref, n), 'parse_header:q0-coding-returned')
     for r, _ in ref:
-        if acceptable(ref, r):
+        if all(q > 0 for n, q in ref if n == r):       # (a name listed both with q = 0 and q > 0 is ambiguous: not judged)
             orc.check(r in names, 'parse_header:acceptable-coding-dropped')
     uniq = {r: q for r, q in ref if sum(1 for x, _ in ref if x == r) == 1}
     qs = [uniq[n] for n in names if n in uniq]
@@ -480,7 +475,7 @@ def response_roundtrip(coding: int, sup: int, chunk: int, method: int) -> str:
     post: __return__ == 'ok'
     """
     from harness.C13 import KEY, RESP, PathElementRegistry, mk_component
-    ae = pick(coding, (None, 'gzip', 'x-lz4;q=0.5, gzip;q=0.1', 'lz4, gzip;q=0'))
+    ae = pick(coding, (None, 'gzip', 'x-lz4;q=0.5, gzip;q=0.1', 'lz4;q=0.3, gzip'))
     enabled = pick(sup, SUPPORTED)
     chunk = pick(chunk, CHUNKS)
     method = pick(method, ('POST', 'GET'))
